@@ -37,7 +37,7 @@ type c13Cell struct {
 	mr    *miniredis.Miniredis
 	hub   *vfRedisHub
 	front *vfRedisFront
-	p     map[bool]*vfProxy // retries? -> instance
+	p     map[string]*vfProxy // mode -> instance
 	n     int
 }
 
@@ -70,7 +70,8 @@ func (f c13Fault) isError() bool {
 
 type c13Outcome struct {
 	Scenario   string        `json:"scenario"`
-	Retries    bool          `json:"retries"`
+	Mode       string        `json:"mode"`    // noretry | retry (standalone client) | cluster | sentinel (topology clients, library-default retries)
+	Retries    bool          `json:"retries"` // the client may retry: only the retry-agnostic invariants are judged
 	Faults     []string      `json:"faults"`
 	Ops        []string      `json:"ops"` // op log of the faulted phase: "GET", "GET!truncate", ...
 	Status     int           `json:"status"`
@@ -82,6 +83,11 @@ type c13Outcome struct {
 	Note       string        `json:"note,omitempty"`
 }
 
+var c13Modes = []string{"noretry", "retry", "cluster", "sentinel"}
+
+// fault kinds used with the topology clients in the quick tier (the full list in thorough)
+var c13TopologyKinds = map[string]bool{"err-before": true, "drop-before": true, "down": true, "effect-err": true, "nil": true, "corrupt": true, "truncate": true}
+
 var c13Scenarios = []string{"login", "form-login", "request", "auth-only", "userinfo", "refresh", "refresh-norefreshtoken", "sign-out", "sign-out-post", "ready"}
 
 func c13NewCell(t *testing.T, run *vfRun, w *vfWorld, htp string, n int) *c13Cell {
@@ -89,20 +95,30 @@ func c13NewCell(t *testing.T, run *vfRun, w *vfWorld, htp string, n int) *c13Cel
 	if err != nil {
 		t.Fatalf("miniredis: %v", err)
 	}
-	c := &c13Cell{w: w, mr: mr, hub: vfNewRedisHub(mr), p: map[bool]*vfProxy{}, n: n}
+	c := &c13Cell{w: w, mr: mr, hub: vfNewRedisHub(mr), p: map[string]*vfProxy{}, n: n}
 	c.front = c.hub.Front(n)
 	w.OnClose(func() { c.hub.Close(); mr.Close() })
-	for _, retries := range []bool{false, true} {
+	for _, mode := range c13Modes {
 		params := "read_timeout=150ms&write_timeout=150ms&dial_timeout=1s&min_retry_backoff=1ms&max_retry_backoff=2ms"
-		if !retries {
+		if mode == "noretry" {
 			params += "&max_retries=-1" // go-redis: -1 disables retries
 		}
-		p, err := w.NewProxy("--session-store-type=redis", "--redis-connection-url="+c.front.URL(params), "--cookie-refresh=1m", "--cookie-expire=2h",
-			"--htpasswd-file="+htp, "--ready-path=/ready", "--pass-access-token=true")
-		if err != nil {
-			t.Fatalf("cell %d: %v", n, err)
+		var storeFlags []string
+		switch mode {
+		case "cluster", "sentinel":
+			// the Cluster / Sentinel clients (own wrapper type, own builder): the front poses as a one-node cluster resp. as
+			// the master a fake sentinel names; same instance number, so the injection hook treats them alike. The builders
+			// ignore URL parameters: library-default timeouts (3 s) and retries apply.
+			storeFlags = c.hub.Front(n).ModeFlags(mode, "")
+		default:
+			storeFlags = c.front.ModeFlags("standalone", params)
 		}
-		c.p[retries] = p
+		p, err := w.NewProxy(append([]string{"--session-store-type=redis", "--cookie-refresh=1m", "--cookie-expire=2h",
+			"--htpasswd-file=" + htp, "--ready-path=/ready", "--pass-access-token=true"}, storeFlags...)...)
+		if err != nil {
+			t.Fatalf("cell %d mode %s: %v", n, mode, err)
+		}
+		c.p[mode] = p
 	}
 	return c
 }
@@ -116,9 +132,10 @@ func c13IsSessionCookie(p *vfProxy, line string) (name, value string, ok bool) {
 }
 
 // c13Run executes one scenario from a fresh state with the given faults armed for the scenario's critical phase.
-func (c *c13Cell) run(scn string, retries bool, faults []c13Fault) *c13Outcome {
-	p := c.p[retries]
-	out := &c13Outcome{Scenario: scn, Retries: retries, After: map[string]int{}}
+func (c *c13Cell) run(scn string, mode string, faults []c13Fault) *c13Outcome {
+	p := c.p[mode]
+	retries := mode != "noretry"
+	out := &c13Outcome{Scenario: scn, Mode: mode, Retries: retries, After: map[string]int{}}
 	for _, f := range faults {
 		out.Faults = append(out.Faults, f.String())
 	}
@@ -195,7 +212,7 @@ func (c *c13Cell) run(scn string, retries bool, faults []c13Fault) *c13Outcome {
 		ops = append(ops, cmd.Op)
 		return vfRedisDecision{}
 	}, nil)
-	uid := fmt.Sprintf("c13-%d-%s-%v-%s", c.n, scn, retries, strings.Join(out.Faults, "+"))
+	uid := fmt.Sprintf("c13-%d-%s-%s-%s", c.n, scn, mode, strings.Join(out.Faults, "+"))
 	var resp *vfResp
 	switch scn {
 	case "login":
@@ -283,7 +300,7 @@ func c13OpsHave(ops []string, op string, unfaulted bool) bool {
 func c13Judge(run *vfRun, o *c13Outcome, faults []c13Fault, base []string) {
 	flagsDetail := func() map[string]interface{} { return map[string]interface{}{"outcome": o, "fault_free_ops": base} }
 	report := func(sig, msg string) {
-		run.Violation(sig, fmt.Sprintf("%s [%s retries=%v faults=%v ops=%v status=%d]", msg, o.Scenario, o.Retries, o.Faults, o.Ops, o.Status), flagsDetail())
+		run.Violation(sig, fmt.Sprintf("%s [%s mode=%s faults=%v ops=%v status=%d]", msg, o.Scenario, o.Mode, o.Faults, o.Ops, o.Status), flagsDetail())
 	}
 	if o.Panic != "" {
 		report("c13:panic", "request handling panicked under a store fault: "+vfTrunc(o.Panic, 100))
@@ -438,8 +455,8 @@ func c13HungStoreReadiness(t *testing.T, run *vfRun, w *vfWorld, htp string) {
 func TestVerif_C13(t *testing.T) {
 	run := vfNewRun(t, "C13", "fault_enumeration")
 	run.SetRule("per scenario (login, form-login, request, auth-only, userinfo, refresh, refresh without refresh token, sign-out GET/POST, ready): fault-free run records the store-operation sequence; then every position x every fault kind " +
-		"(err-before, drop-before, effect-drop, effect-err, nil, stall, corrupt at 3 offsets, truncate to 0/1/11/12/13/28/len-1), with go-redis retries off and on; thorough adds all ordered pairs of positions. " +
-		"cell = (scenario, retries, position, fault kind); non-trivial = the fault changed the status, the served flag or the operation sequence relative to the fault-free run")
+		"(err-before, drop-before, effect-drop, effect-err, nil, stall, corrupt at 3 offsets, truncate to 0/1/11/12/13/28/len-1), with the standalone client (go-redis retries off and on) and with the Cluster and Sentinel clients (front posing as a one-node cluster / as the master a fake sentinel names; library-default retries; reduced kind list in quick); thorough adds all ordered pairs of positions (standalone). " +
+		"cell = (scenario, client mode, position, fault kind); non-trivial = the fault changed the status, the served flag or the operation sequence relative to the fault-free run")
 	run.Assume("miniredis stands in for Redis", "a failed re-save after a successful IdP refresh and a failed lock release are recorded, not judged (request is served from a session that was read intact and validated; outside the five guarantees)")
 	w := vfNewWorld(t)
 	defer w.Close()
@@ -454,17 +471,17 @@ func TestVerif_C13(t *testing.T) {
 	hangDone := make(chan struct{})
 	go func() { defer close(hangDone); c13HungStoreReadiness(t, run, w, htp) }()
 	type job struct {
-		scn     string
-		retries bool
-		faults  []c13Fault
+		scn    string
+		mode   string
+		faults []c13Fault
 	}
 	// fault-free baselines
 	base := map[string][]string{}
 	baseOut := map[string]*c13Outcome{}
 	for _, scn := range c13Scenarios {
-		for _, retries := range []bool{false, true} {
-			o := cells[0].run(scn, retries, nil)
-			key := fmt.Sprintf("%s/%v", scn, retries)
+		for _, mode := range c13Modes {
+			o := cells[0].run(scn, mode, nil)
+			key := scn + "/" + mode
 			if o.Note != "" {
 				t.Fatalf("baseline %s: %s", key, o.Note)
 			}
@@ -481,19 +498,24 @@ func TestVerif_C13(t *testing.T) {
 	run.Extra("fault_free_sequences", base)
 	var jobs []job
 	for _, scn := range c13Scenarios {
-		for _, retries := range []bool{false, true} {
-			n := len(base[fmt.Sprintf("%s/%v", scn, retries)])
+		for _, mode := range c13Modes {
+			retries := mode != "noretry"
+			topology := mode == "cluster" || mode == "sentinel"
+			n := len(base[scn+"/"+mode])
 			for pos := 1; pos <= n+1; pos++ { // n+1: first operation beyond the fault-free sequence (retries / follow-ups)
-				for _, kf := range c13Kinds {
+				for ki, kf := range c13Kinds {
 					if retries && kf.Kind == "stall" && pos > n {
+						continue
+					}
+					if topology && !run.Env.Thorough() && (!c13TopologyKinds[kf.Kind] || ((kf.Kind == "corrupt" || kf.Kind == "truncate") && ki%3 != 0)) {
 						continue
 					}
 					f := kf
 					f.Pos = pos
-					jobs = append(jobs, job{scn, retries, []c13Fault{f}})
+					jobs = append(jobs, job{scn, mode, []c13Fault{f}})
 				}
 			}
-			if run.Env.Thorough() {
+			if run.Env.Thorough() && !topology {
 				pairKinds := []c13Fault{{Kind: "err-before"}, {Kind: "effect-drop"}, {Kind: "nil"}, {Kind: "truncate", N: 11}, {Kind: "corrupt", N: 13}}
 				for p1 := 1; p1 <= n; p1++ {
 					for p2 := p1 + 1; p2 <= n+1; p2++ {
@@ -501,7 +523,7 @@ func TestVerif_C13(t *testing.T) {
 							for _, k2 := range pairKinds {
 								f1, f2 := k1, k2
 								f1.Pos, f2.Pos = p1, p2
-								jobs = append(jobs, job{scn, retries, []c13Fault{f1, f2}})
+								jobs = append(jobs, job{scn, mode, []c13Fault{f1, f2}})
 							}
 						}
 					}
@@ -521,12 +543,12 @@ func TestVerif_C13(t *testing.T) {
 		go func(c *c13Cell) {
 			defer wg.Done()
 			for j := range ch {
-				o := c.run(j.scn, j.retries, j.faults)
+				o := c.run(j.scn, j.mode, j.faults)
 				if o.Note != "" {
 					run.Inconclusive("rig: " + o.Note)
 					continue
 				}
-				key := fmt.Sprintf("%s/%v", j.scn, j.retries)
+				key := j.scn + "/" + j.mode
 				bo := baseOut[key]
 				changed := o.Status != bo.Status || o.Served != bo.Served || strings.Join(o.Ops, ",") != strings.ReplaceAll(strings.Join(bo.Ops, ","), "!", "")
 				reached := false
